@@ -879,6 +879,8 @@ type LoopSpec struct {
 	// PostFn: summary of an unrolled loop. It is asserted on the real exit state, and execution continues from the
 	// pre-loop state with the loop's mod-set havocked and the summary assumed (keeps later path conditions small).
 	PostFn func(c *Ctx, before, after *State) string
+	// BodyObl: extra per-iteration obligations (state at the start of the body, state at the back edge, range index)
+	BodyObl func(c *Ctx, before, after *State, idx string)
 }
 
 func (c *Ctx) loopSpec(ord int, loop ast.Stmt) *LoopSpec {
@@ -971,6 +973,9 @@ func (c *Ctx) execFor(x *ast.ForStmt, st *State) Flow {
 			continue
 		}
 		c.addObl(Obl{Name: key + "/loop.preserve", Kind: "loop.preserve", Guard: back.guard, Goal: c.evalInv(ls, back, "", x.Pos()), Pos: c.pos(x.Pos()), Text: "loop invariant preserved"})
+		if ls.BodyObl != nil {
+			ls.BodyObl(c, before, back, "")
+		}
 		if ls.DecFn != nil {
 			c.addObl(Obl{Name: key + "/loop.decreases", Kind: "loop.decreases", Guard: back.guard, Goal: ls.DecFn(c, before, back), Pos: c.pos(x.Pos()), Text: "loop variant decreases"})
 		}
@@ -1123,12 +1128,16 @@ func (c *Ctx) execRange(x *ast.RangeStmt, st *State) Flow {
 	if id, ok := x.Value.(*ast.Ident); ok && id.Name != "_" {
 		body.env[c.rangeObj(id, x)] = e
 	}
+	rbefore := body.clone()
 	f := c.exec(x.Body, body)
 	for _, back := range append(f.nexts(), f.cont...) {
 		if back == nil || back.guard == "false" {
 			continue
 		}
 		c.addObl(Obl{Name: key + "/loop.preserve", Kind: "loop.preserve", Guard: back.guard, Goal: c.evalInv(ls, back, c.addIdx(j, c.ilit(1)), x.Pos()), Pos: c.pos(x.Pos()), Text: "loop invariant preserved"})
+		if ls.BodyObl != nil {
+			ls.BodyObl(c, rbefore, back, j)
+		}
 	}
 	e2 := c.havoc(st, m)
 	if ls.AxFn != nil {
